@@ -555,9 +555,17 @@ func (r *rateLimiter) cleanupTimeoutClient() {
 			instance := c
 			reason := fmt.Sprintf("instance %s last heartbeat since %v", instance, lastHeartbeat.Format(time.RFC3339Nano))
 			go func() {
+				// The instance identity is not necessarily a valid label value (it may hold ':' or be
+				// longer than 63 bytes); labels.Set.AsSelector() answers with a selector that matches
+				// EVERYTHING for such a value. Select by plain equality and only ever delete the
+				// conditions that belong to the instance that timed out.
+				selector := labels.SelectorFromValidatedSet(labels.Set{RateLimitConditionInstanceLabel: instance})
 				for _, limitStore := range r.limitStoreMap {
-					conditions := limitStore.List(labels.Set{RateLimitConditionInstanceLabel: instance}.AsSelector())
+					conditions := limitStore.List(selector)
 					for _, condition := range conditions {
+						if condition.Spec.Instance != instance {
+							continue
+						}
 						r.deleteCondition(limitStore, condition, reason)
 					}
 					r.deleteGlobalFlowControl(limitStore, instance, reason)
